@@ -151,7 +151,7 @@ func repliedFor(r *Result) (int, bool) {
 
 func c02(args []string) int {
 	run := NewRun("C02", args)
-	run.Sum.Rule = "pairs of requests A, B served back to back on one goroutine through the real proxyBuffers pool. A: plain success (recycled legitimately) / first attempt reset by the connection (termination, connect failure) then the retry answered / 5xx retried / per-try time-out then answered / hijacked; B: plain request parked on its upstream while a late reply of A's abandoned attempt is delivered to that attempt's listener, then B's own answer. Every response is tagged with the request it was produced for. Non-trivial: A had an abandoned attempt or the objects were recycled; distinct by (A, late attempt)."
+	run.Sum.Rule = "pairs of requests A, B served back to back on one goroutine through the real proxyBuffers pool. A: plain success (recycled legitimately) / first attempt reset by the connection (termination, connect failure) then the retry answered / 5xx retried / per-try time-out then answered / hijacked; B: plain request parked on its upstream while a late reply of A's abandoned attempt is delivered to that attempt's listener, then B's own answer. Every response is tagged with the request it was produced for. Plus the sequences of seq.go (requests back to back on one goroutine re-using the pooled downStream object; every request also alone in a process of its own), among them request A whose per-try / global timer functions run after A has ended (Timer.Stop too late) while B holds A's object, in every phase of B. Non-trivial: A had an abandoned attempt or the objects were recycled; distinct by (A, late attempt)."
 	initEnv()
 	mkB := func() *Spec {
 		return &Spec{Route: "forward", NHosts: 2, RouteGlobalMs: 400, Events: []Event{{AtMs: 40, Kind: "upresp", K: 0, Status: 200}}}
@@ -223,6 +223,10 @@ func c02(args []string) int {
 		}
 	}
 	psh.Close()
+	// sequences on recycled downStream objects, with the late timer functions of the previous owner
+	if rc := seqPart(run, 860000, func(*Run, *histJob) {}); rc != 0 {
+		return rc
+	}
 	return run.Finish()
 }
 
